@@ -155,7 +155,7 @@ theorem binary_conformant (cfg : Cfg) (req : Request) (tid : Nat) (r : Resp) (da
     (hf : cfg.framer = .binary) (hw : C01.WFResp r) (he : Impl.encResp r = .ok data)
     (hfc : r.fc = req.pdu.fc ∨ r.fc = req.pdu.fc ||| 0x80)
     (hexc : 128 ≤ r.fc → data.length = 1)
-    (hnd : NoDelim (binBody req.unit r.fc data))
+    (hnd : NoEnd (binBody req.unit r.fc data))
     (hexp : ExpectedOk cfg req r.fc (data.length + 6)) :
     Conformant cfg req tid (binFrame req.unit r.fc data) ⟨PduSpec.normResp r, req.unit, 0⟩ := by
   have hl := binFrame_length req.unit r.fc data
